@@ -568,3 +568,94 @@ func (p *Prog) FeasibleStates(f *Func, starts []*Node, init Store, avoid func(*N
 	}
 	return out
 }
+
+// singleDef returns the right-hand side of the only assignment to local v in
+// f (nil if v has no or several definitions, or is assigned as part of a tuple).
+func (p *Prog) singleDef(f *Func, v *types.Var) ast.Expr {
+	if v == nil || v.IsField() {
+		return nil
+	}
+	info := f.Pkg.TypesInfo
+	root := f
+	for root.Parent != nil {
+		root = root.Parent
+	}
+	var rhs ast.Expr
+	n := 0
+	ast.Inspect(root.Body, func(x ast.Node) bool {
+		switch s := x.(type) {
+		case *ast.AssignStmt:
+			for i, l := range s.Lhs {
+				if identObj(info, l) == v {
+					n++
+					if len(s.Rhs) == len(s.Lhs) && (s.Tok == token.ASSIGN || s.Tok == token.DEFINE) {
+						rhs = s.Rhs[i]
+					} else {
+						n++ // tuple or op-assign: not a simple alias
+					}
+				}
+			}
+		case *ast.ValueSpec:
+			for i, nm := range s.Names {
+				if info.Defs[nm] == v {
+					if i < len(s.Values) {
+						n++
+						rhs = s.Values[i]
+					}
+				}
+			}
+		case *ast.IncDecStmt:
+			if identObj(info, s.X) == v {
+				n += 2
+			}
+		}
+		return true
+	})
+	if n == 1 {
+		return rhs
+	}
+	return nil
+}
+
+// Deref follows single-definition local aliases: `x := e` ... `x` denotes e.
+func (p *Prog) Deref(f *Func, e ast.Expr) ast.Expr {
+	info := f.Pkg.TypesInfo
+	for i := 0; i < 5; i++ {
+		v, ok := identObj(info, ast.Unparen(e)).(*types.Var)
+		if !ok {
+			return e
+		}
+		d := p.singleDef(f, v)
+		if d == nil {
+			return e
+		}
+		e = d
+	}
+	return e
+}
+
+// EdgeAtom is edgeAtom that looks through boolean aliases: `b := x != ""; if b {`.
+func (p *Prog) EdgeAtom(f *Func, e *Edge) (condAtom, bool) {
+	info := f.Pkg.TypesInfo
+	at, ok := edgeAtom(info, e)
+	if !ok || at.Kind != "bool" {
+		return at, ok
+	}
+	v, isV := identObj(info, at.X).(*types.Var)
+	if !isV {
+		return at, ok
+	}
+	d := p.singleDef(f, v)
+	if d == nil {
+		return at, ok
+	}
+	branch := +1
+	if !at.True {
+		branch = -1
+	}
+	fake := &Edge{Cond: d, Branch: branch}
+	if a2, ok2 := edgeAtom(info, fake); ok2 {
+		return a2, true
+	}
+	return at, ok
+}
